@@ -84,6 +84,7 @@ m("c14-f17-revert", GL, "            trio_token = next_inner.pyframe.f_locals.ge
 m("c05-f18-revert", EX, "        except Exception as ex:\n            # extract_iter() saves the exceptions it anticipates", "        except ZeroDivisionError as ex:\n            # extract_iter() saves the exceptions it anticipates", "C05", "faults312")
 m("c15-f19-revert", GL, "    if hasattr(greenback._impl, \"_greenback_shim_sync\"):  # pragma: no branch", "    if False:", "C15", "gback312")
 m("c03-f20-revert", GL, "        @unwrap_stackitem.register(anext_awaitable_type)\n", "", "C03", "chain312,chain310")
+m("c14-f21-revert", GL, "                or current.f_locals.get(\"task_register\") is task_register", "                or True", "C14", "")
 m("c07-thread-alive-check", GL, "        if inner_frame is None or not thread.is_alive() or not was_alive:", "        if inner_frame is None:", "C07", "blocked312,racing312")
 # ---- C08 -------------------------------------------------------------------
 m("c08-async-skip-insns", LL, "            skip_insns = 7 if is_async else 1", "            skip_insns = 6 if is_async else 1", "C08", "w312,w311")
